@@ -174,6 +174,45 @@ def pipeline_cases(draw, tier):
     return c
 
 
+# complete enumeration of small tables: 2 atoms, one or two jumps each among 3 sites on a line, times in 0..5
+_GEO = {'lattice': {'family': 'cubic', 'orient': 'lower', 'params': [9, 9, 9, 90, 90, 90], 'matrix': [[9.0, 0, 0], [0, 9.0, 0], [0, 0, 9.0]]},
+        'sites': {'frac': [[0.05, 0.5, 0.5], [0.25, 0.5, 0.5], [0.9, 0.5, 0.5]], 'labels': ['A', 'B', 'A']}}
+
+
+def _single_jumps():
+    out = []
+    for o in range(3):
+        for d in range(3):
+            if o != d:
+                for s_ in range(0, 5):
+                    for e in range(s_ + 1, 6):
+                        out.append((o, d, s_, e))
+    return out
+
+
+_SJ = _single_jumps()  # 90 possible jumps of one atom
+_WC = [(w, c) for w in (0, 1, 2) for c in (1.0, 2.0, 3.0)]
+
+
+def small_size(tier):
+    n = len(_SJ)
+    return n * n * len(_WC) if tier == 'quick' else n * n * len(_WC) * 3
+
+
+def small_case(tier, idx):
+    n = len(_SJ)
+    wc = _WC[idx % len(_WC)]
+    idx //= len(_WC)
+    j0, j1 = _SJ[idx % n], _SJ[(idx // n) % n]
+    extra = (idx // (n * n)) % 3
+    rows = [[0, *j0], [1, *j1]]
+    if extra == 1:  # a second, later jump of atom 0 back to where it came from
+        rows.append([0, j0[1], j0[0], j0[3] + 1, j0[3] + 3])
+    elif extra == 2:  # a third atom with a long transit spanning everything
+        rows.append([2, 2, 0, 0, 9])
+    return dict(_GEO, rows=rows, window=wc[0], cutoff=wc[1])
+
+
 SUBS = [
     Sub(name='tables', kind='hyp', run=run_table, strategy=table_cases,
         rule='1-5 atoms, <=25 sequential jumps with transits 1..40 (incl. window+1, 2*window+3), window in {0,1,2,3,5,10,20}, cut-off free or 0.05 A beside a site-site distance, rows in random order; reported pairs vs O(n^2) model',
@@ -184,4 +223,7 @@ SUBS = [
     Sub(name='fuzz-collective', kind='fuzz', run=run_table, target='collective',
         rule='thorough tier only: atheris (libFuzzer) coverage-guided campaign on the Python-level classifier with the property oracle inside the target; bytes are decoded into a structured case; empty and seeded corpus shards; non-trivial counted but not de-duplicated',
         n={'quick': 0, 'thorough': 60000}, shards={'quick': 1, 'thorough': 16}),
+    Sub(name='enum-small-tables', kind='enum', run=run_table, size=small_size, case_at=small_case, exhaustive=True,
+        rule='complete enumeration: every pair of single jumps of two atoms among 3 collinear sites with start < stop in 0..5 (90 x 90), windows 0-2, cut-offs 1/2/3 A (site distances 1.8, 1.35 through the cell face, 3.15); thorough adds a return jump and a long-transit third atom',
+        shards={'quick': 16, 'thorough': 16}),
 ]
